@@ -211,6 +211,10 @@ func oracle(c Case) vkit.Outcome {
 	src := p.EgoSource()
 	for _, mode := range modes {
 		e := egorun.Run(src, egorun.Config{Types: mode, Optimize: 0, EntryPoint: "main"})
+		if e.Runaway {
+			out.Inconclusive = "the Ego run did not end within the harness bound (" + mode + ")"
+			return out
+		}
 		sig, obs := compare(g, e)
 		if sig == "" {
 			continue
